@@ -1,6 +1,7 @@
 import MaddyVerif.Model.Queue
 import MaddyVerif.Model.QueueHop
 import MaddyVerif.Model.QueueRestart
+import MaddyVerif.Model.QueueErr
 import Driver.Util
 namespace Driver.C01
 open MaddyVerif.Queue Driver
@@ -18,14 +19,98 @@ def lookupCls (rs : List Nat) (cs : List Cls) (r : Nat) : Cls :=
   | some p => p.2
   | none => .ok
 
-def parsePlan (rs : List Nat) (s : String) : Option Plan :=
-  match s.splitOn "/" with
+/-! ### the error grid (`C01 cls`, `C01 run … X=`): the harness's table of error forms as chains -/
+section grid
+open MaddyVerif.QueueErr
+
+def enhOf (style : Char) (basic : Nat) : Option Enh :=
+  match style with
+  | 'a' => some (Int.ofNat (basic / 100), 0, 0)
+  | 'n' => some (0, 0, 0)
+  | '2' => some (2, 0, 0)
+  | '4' => some (4, 2, 2)
+  | '5' => some (5, 1, 1)
+  | '0' => some (0, 1, 1)
+  | '1' => some (1, 1, 1)
+  | '9' => some (9, 0, 0)
+  | 'm' => some (-1, -1, -1)
+  | 'k' => some (Int.ofNat (basic / 100), 1000, 1)
+  | _ => none
+
+/-- class letter `t|p|u`, shape, style → the Unwrap chain `c01ErrForm` builds -/
+def chainOf (c shape style : Char) : Option Err :=
+  if !"SFWMYEPD".toList.contains shape then none else
+  match c with
+  | 'u' =>
+    (enhOf style 550).map (fun _ =>
+      match shape with
+      | 'F' => [.fields, .leaf]
+      | 'M' => [.wrap, .leaf]
+      | 'Y' => [.wrap, .leaf]
+      | 'E' => [.fields, .wrap, .leaf]
+      | _ => [.leaf])
+  | 't' | 'p' =>
+    let temp := c == 't'
+    let basic := if temp then 451 else 550
+    let opp := if temp then 550 else 451
+    match enhOf style basic, enhOf style opp with
+    | some ec, some ec2 =>
+      match shape with
+      | 'S' => some [.smtp basic ec]
+      | 'F' => some [.fields, .smtp basic ec]
+      | 'W' => some [.marker temp, .leaf]
+      | 'M' => some [.marker temp, .smtp basic ec]
+      | 'Y' => some [.marker temp, .smtp opp ec2]
+      | 'E' => some [.smtp basic ec, .marker (!temp), .leaf]
+      | 'P' => some [.plainSmtp basic ec]
+      | 'D' => some (if temp then [.wrap, .deadline] else [.smtp basic ec])
+      | _ => none
+    | _, _ => none
+  | _ => none
+
+def handleCls : List String → String
+  | [tok] =>
+    match tok.toList with
+    | [c, sh, st] =>
+      match chainOf c sh st with
+      | some e =>
+        let r := recorded e
+        let verdict := if (cls e).retryable then "retry" else "final"
+        let rep := if reportable r.2 then "report:ok" else "report:fails"
+        s!"{verdict} {r.1} {r.2.1}.{r.2.2.1}.{r.2.2.2} {rep}"
+      | none => "bad-op"
+    | _ => "bad-op"
+  | _ => "bad-op"
+
+/-- `X=<shape><style>…` -/
+def parseForms (s : String) : Option (List (Char × Char)) :=
+  let rec pairs : List Char → Option (List (Char × Char))
+    | [] => some []
+    | sh :: st :: rest =>
+      if "SFWMYEPD".toList.contains sh && (enhOf st 550).isSome then (pairs rest).map ((sh, st) :: ·) else none
+    | _ => none
+  match s.toList with
+  | 'X' :: '=' :: rest => if rest.isEmpty then none else pairs rest
+  | _ => none
+
+/-- class of the failure at (attempt, stage, recipient position): the plan's letter, spelled in the
+form `c01FormIdx` picks, classified by `QueueErr.cls` -/
+def cellCls (forms : List (Char × Char)) (a stage pos : Nat) (c : Char) : Option Cls :=
+  if forms.isEmpty || c == 'o' then clsOf c else
+  let f := forms.getD ((a * 11 + stage * 5 + pos * 3) % forms.length) ('S', 'a')
+  (chainOf c f.1 f.2).map cls
+
+end grid
+
+def parsePlan (forms : List (Char × Char)) (rs : List Nat) (sa : String × Nat) : Option Plan :=
+  let a := sa.2
+  match sa.1.splitOn "/" with
   | [st, rc, bd, brc, cm] => do
-    let st ← st.toList.head? >>= clsOf
-    let bd ← bd.toList.head? >>= clsOf
-    let cm ← cm.toList.head? >>= clsOf
-    let rcs ← rc.toList.mapM clsOf
-    let brcs ← brc.toList.mapM clsOf
+    let st ← st.toList.head? >>= cellCls forms a 0 0
+    let bd ← bd.toList.head? >>= cellCls forms a 2 0
+    let cm ← cm.toList.head? >>= cellCls forms a 4 0
+    let rcs ← rc.toList.zipIdx.mapM (fun cj => cellCls forms a 1 cj.2 cj.1)
+    let brcs ← brc.toList.zipIdx.mapM (fun cj => cellCls forms a 3 cj.2 cj.1)
     if rcs.length != rs.length || brcs.length != rs.length then none else
     pure { start := st, rcpt := lookupCls rs rcs, body := bd, bodyRc := lookupCls rs brcs, commit := cm }
   | _ => none
@@ -115,11 +200,16 @@ def parseScript8 (rs : List Nat) (ml lim rej dat st drp qt bf : String) : Option
          dataCmd := dataCmd, dataEnd := dataEnd, lmtpSt := lookupOpt rs sts, lmtpDrop := drop,
          bodyOpenF := bo, bodyReadF := br }
 
-/-- `mail/limit/rej/data/status/drop/quit[/body]` -/
+/-- `mail/limit/rej/data/status/drop/quit[/body[/enh]]` -/
 def parseScript (rs : List Nat) (s : String) : Option Script :=
   match s.splitOn "/" with
   | [ml, lim, rej, dat, st, drp, qt] => parseScript8 rs ml lim rej dat st drp qt "-"
   | [ml, lim, rej, dat, st, drp, qt, bf] => parseScript8 rs ml lim rej dat st drp qt bf
+  | [ml, lim, rej, dat, st, drp, qt, bf, enh] =>
+    -- the style of the enhanced status codes of the hop's replies: no field of the model reads it
+    match enh.toList with
+    | [c] => if (enhOf c 550).isSome then parseScript8 rs ml lim rej dat st drp qt bf else none
+    | _ => none
   | _ => none
 
 def quiet : Script :=
@@ -197,37 +287,66 @@ def parseEnv (rs : List Nat) (s : String) : Option Env :=
     if !env.utf8 && (env.senderNA || rs.any (fun r => named r || mailboxNA r)) then none else some env
   | _ => none
 
-def parseExt (rs : List Nat) : List String → Option ((Nat → Nat) × Env)
-  | [] => some (fun _ => 0, ⟨true, false, fun _ => false⟩)
-  | [r] => (parseRestarts r).map (·, ⟨true, false, fun _ => false⟩)
-  | [r, e] => do
-    let rr ← parseRestarts r
-    let env ← parseEnv rs e
-    pure (rr, env)
+/-- `T=<k><h|m|d>.…` : number of transient read faults before attempt `k` -/
+def parseFaults (s : String) : Option (Nat → Nat) :=
+  match s.toList with
+  | 'T' :: '=' :: rest =>
+    let one (f : String) : Option Nat :=
+      match f.toList.reverse with
+      | c :: ds => if "hmd".toList.contains c && !ds.isEmpty then (String.ofList ds.reverse).toNat? else none
+      | [] => none
+    (((String.ofList rest).splitOn ".").mapM one).map (fun (ks : List Nat) i => ks.count i)
   | _ => none
+
+structure Ext where
+  restarts : Nat → Nat := fun _ => 0
+  faults : Nat → Nat := fun _ => 0
+  env : Env := ⟨true, false, fun _ => false⟩
+  forms : List (Char × Char) := []
+
+/-- optional tokens, told apart by their prefix; `E=` and `X=` only after an `R=` token -/
+def parseExt (rs : List Nat) (toks : List String) : Option Ext :=
+  match toks with
+  | [] => some {}
+  | r :: rest =>
+    (parseRestarts r).bind (fun rr =>
+      rest.foldlM (fun (x : Ext) tok =>
+        if tok.startsWith "E=" then (parseEnv rs tok).map (fun e => { x with env := e })
+        else if tok.startsWith "T=" then
+          (parseFaults tok).bind (fun f =>
+            -- the first attempt of a running server does not read the spool
+            if f 0 > 0 && rr 0 == 0 then none else some { x with faults := f })
+        else if tok.startsWith "X=" then (parseForms tok).map (fun f => { x with forms := f })
+        else none) { restarts := rr })
 
 end ext
 
 def handle : List String → String
   | "hop" :: rest => handleHop rest
+  | "cls" :: rest => handleCls rest
   | "run" :: mt :: kind :: dsn :: rcpts :: plans :: ext =>
     -- optional tokens: R=<restart before attempt k>.… and E=<utf8><sender form><original-recipient forms>
     match mt.toNat?, (rcpts.splitOn ",").mapM String.toNat? with
     | some maxTries, some rs =>
-      match (plans.splitOn ";").mapM (parsePlan rs), parseExt rs ext with
-      | some ps, some (restarts, env) =>
+      match parseExt rs ext with
+      | none => "bad-op"
+      | some x =>
+      match (plans.splitOn ";").zipIdx.mapM (parsePlan x.forms rs) with
+      | none => "bad-op"
+      | some ps =>
+        let restarts := MaddyVerif.QueueRestart.withReadFaults x.restarts x.faults
+        let env := x.env
         let k := if kind == "p" then Kind.partialD else Kind.atomic
         let planAt : Nat → Plan := fun i => (ps[i]?).getD allOk
         let res := MaddyVerif.QueueRestart.runR maxTries k (dsn == "1") env planAt restarts (maxTries + 1) 0
           (MaddyVerif.QueueRestart.accepted rs)
         " ".intercalate (res.1.filterMap showEv ++ (if res.2 then ["BROKEN"] else []))
-      | _, _ => "bad-op"
     | _, _ => "bad-op"
   | "outcomes" :: mt :: kind :: dsn :: rcpts :: plans :: _ =>
     -- terminal outcomes only, canonically ordered: the queue on top of the real remote target
     match mt.toNat?, (rcpts.splitOn ",").mapM String.toNat? with
     | some maxTries, some rs =>
-      match (plans.splitOn ";").mapM (parsePlan rs) with
+      match (plans.splitOn ";").zipIdx.mapM (parsePlan [] rs) with
       | some ps =>
         let k := if kind == "p" then Kind.partialD else Kind.atomic
         let planAt : Nat → Plan := fun i => (ps[i]?).getD allOk
